@@ -119,6 +119,20 @@ PROPS = {
                    "The simulator explores which thread exhausts which side first in partition's block claiming and everything for_each/do_all do underneath.",
         level_note="Sampling over seeds; element accesses are plain (no decision points), so > 1024 elements stay cheap.",
         **tiers(6000, 120, 150000, 1500)),
+    "C09": dict(
+        jobs=[dict(harness="c09_alloc", variant="a", weight=3), dict(harness="c09_alloc", variant="n", weight=2),
+              dict(harness="c01_foreach_0", variant="a", weight=1, params={"entry": 14},
+                   build=dict(sources=["/verif/harness/c01_foreach.cpp"], extra_flags=["-DWLSET=0"])),
+              dict(harness="c01_foreach_1", variant="n", weight=1, params={"entry": 12},
+                   build=dict(sources=["/verif/harness/c01_foreach.cpp"], extra_flags=["-DWLSET=1"]))],
+        components=comp(), expected_probes=["blocks_allocated"],
+        design_ref="3.9",
+        level_text="Seeded exploration of alloc/free histories spread over simulated threads (frees on other threads included) against FixedSizeHeap (17 size classes), Pow_2_BlockHeap "
+                   "(class boundaries 2^i +-1, malloc backup beyond 64KB), VariableSizeHeap (both allocate overloads), the page pool (pre-alloc, remote frees), PerThreadStorage creation/destruction "
+                   "from several threads (1B..1MB, constructed free-list/'change' scenario), largeMalloc*/LargeArray, and the per-iteration allocator inside for_each (pia instantiations of the loop harness). "
+                   "Oracle: shadow interval map (non-null, size, alignment, disjoint from all live blocks) + canaries verified at free and at the end. Faults: huge-page refusal, spurious weak-CAS failure.",
+        level_note="Sampling over seeds. Requests stay inside the 2MB per-thread-storage capacity model (exceeding it is a designed GALOIS_DIE). Page alignment is checked against the simulated mmap, which places 2MB-multiples on 2MB boundaries.",
+        **tiers(6000, 120, 150000, 1500)),
 }
 
 ALL_IDS = ["C%02d" % i for i in range(1, 21)]
